@@ -56,11 +56,12 @@ def parse_lean(line):
 
 
 class Case:
-    __slots__ = ("text", "expect", "types", "label", "rule", "where", "nomain")
+    __slots__ = ("text", "expect", "types", "label", "rule", "where", "nomain", "template")
 
-    def __init__(self, text, expect, label, types=None, rule=None, where=None, nomain=False):
+    def __init__(self, text, expect, label, types=None, rule=None, where=None, nomain=False, template=None):
         self.text, self.expect, self.label, self.types, self.rule, self.where, self.nomain = \
             text, expect, label, types, rule, where, nomain
+        self.template = template        # abstract form for the decision-table model
 
     def replay(self, **extra):
         d = {"kind": "prog", "text": self.text, "expect": self.expect, "label": self.label, "nomain": self.nomain}
@@ -85,12 +86,21 @@ def judge(ctx, cases, with_model, stats):
         if idx:
             out = core.lean_lines(["check " + ("nomain " if cases[i].nomain else "") + go[i]["p"] for i in idx])
             lean = {i: parse_lean(l) for i, l in zip(idx, out)}
+    tmpl = {}
+    if with_model:
+        idx = [i for i, c in enumerate(cases) if c.template and go[i]["status"] == "ok"]
+        if idx:
+            out = core.lean_lines([("trigger " if cases[i].label == "trigger" else "template ") + cases[i].template for i in idx])
+            tmpl = dict(zip(idx, out))
     tie_bad = 0
     for i, (c, g) in enumerate(zip(cases, go)):
         ctx.count(case_key=c.text, nontrivial=True)
         stats["cases:" + c.label] += 1
         if c.rule:
-            stats["rule:" + c.rule.split(":")[0]] += 1
+            if c.label in ("typed-mutant", "progs-mutant"):
+                stats["rule:" + c.rule.replace("blockpos:", "")] += 1
+            else:
+                stats["rule:(" + c.label.split(":")[0] + ")"] += 1
         # ---- oracle on the implementation ------------------------------------------------
         if g["status"] in ("panic", "crash"):
             ctx.violation(c.replay(go=g.get("raw", "")), f"analyzer panics / crashes ({c.label}): {g.get('raw', '')[:120]}")
@@ -116,6 +126,14 @@ def judge(ctx, cases, with_model, stats):
                 ctx.violation(c.replay(), f"ill-typed program accepted ({c.label}; rule {c.rule} at {c.where})")
                 continue
         # ---- tie with the model --------------------------------------------------------------
+        if i in tmpl:
+            stats["template-judged"] += 1
+            want = "V=" + (",".join(g["v"]) or "-")
+            if tmpl[i] != want:
+                tie_bad += 1
+                if tie_bad <= 3:
+                    ctx.broken.append(f"correspondence:{c.label}:{c.where}: go={want} model={tmpl[i]} text={c.text[:300]!r}")
+            continue
         l = lean.get(i)
         if l is None:
             continue
@@ -138,16 +156,19 @@ def judge(ctx, cases, with_model, stats):
 
 def gen_cases(ctx, avoid):
     rng = ctx.rng
-    n_typed, k_typed, n_progs, k_progs = (260, 10, 120, 8) if ctx.tier == "quick" else (5000, 14, 2500, 12)
+    n_typed, k_typed, n_progs, k_progs = (1200, 10, 350, 8) if ctx.tier == "quick" else (14000, 14, 4000, 12)
+    n_table = 500 if ctx.tier == "quick" else 6000
     cases = []
     feats = collections.Counter()
     # hand-written witnesses and decision tables
     for fid, text, err, what in faults.fixed_cases():
         cases.append(Case(text, "reject" if err else "accept", "fixed:" + fid, rule=what if err else None, where=fid))
-    for text, err, what in faults.template_cases():
-        cases.append(Case(text, "reject" if err else "accept", "template", rule="template:" + what if err else None, where=what))
-    for text, err, what in faults.trigger_cases():
-        cases.append(Case(text, "reject" if err else "accept", "trigger", rule="trigger:" + what if err else None, where=what))
+    for text, err, what, sexp in faults.template_cases(rng, n_table):
+        expect = None if err is None else ("reject" if err else "accept")
+        cases.append(Case(text, expect, "template", rule="template:" + what if err else None, where=what, template=sexp))
+    for text, err, what, sexp in faults.trigger_cases(rng, n_table):
+        expect = None if err is None else ("reject" if err else "accept")
+        cases.append(Case(text, expect, "trigger", rule="trigger:" + what if err else None, where=what, template=sexp))
     cases.append(Case("fn f() { }\n", "accept", "nomain", nomain=True))
     # typed programs and their tree-level mutants
     for _ in range(n_typed):
@@ -206,6 +227,7 @@ def run(ctx):
     ctx.coverage["model_fragment"] = {"judged_by_model": judged, "unsupported_by_model": unsup,
                                       "fraction_in_fragment": round(judged / max(1, judged + unsup), 4),
                                       "unsupported_reasons": {k[12:]: v for k, v in stats.items() if k.startswith("unsupported:")}}
+    ctx.coverage["template_cases_judged_by_model"] = stats["template-judged"]
     ctx.coverage["tie_mismatches"] = tie_bad
     ctx.coverage["constructs_hit"] = dict(feats.most_common(60))
     ctx.coverage["rule"] = ("well-typed programs from a typed generator that knows the type of every expression (closures, match, "
